@@ -44,6 +44,12 @@ type encCase struct {
 	// Repeat > 1: every record is written Repeat times in a row (thousands of
 	// identical rows: blocks that compress by more than an order of magnitude).
 	Repeat int `json:"repeat,omitempty"`
+	// Evolved (compile-time types only): before the encoder under test is created the
+	// process reads, into the same Go type, a file written under another generation of
+	// the type's schema (same record name, top-level fields in reverse order) — 1: a
+	// header-only file; 2: a file holding the case's first record. Ordinary schema
+	// evolution on the read side; what is written afterwards must not depend on it.
+	Evolved int `json:"evolved,omitempty"`
 }
 
 // shortReader delivers at most N bytes per Read call (a network stream, a pipe):
@@ -169,6 +175,9 @@ func newEncoderFor(w io.Writer, ts spec.TypeSpec, typ reflect.Type, c avro.Compr
 // denotation of every record written.
 func encodeCase(c encCase) (file []byte, in []spec.AbsVal, err error) {
 	typ := spec.Build(c.Type)
+	if c.Evolved != 0 {
+		readEvolvedFirst(c, typ)
+	}
 	var buf bytes.Buffer
 	enc, err := newEncoderFor(&buf, c.Type, typ, avro.Compression(c.Compression), c.BlockSize)
 	if err != nil {
@@ -201,6 +210,55 @@ func encodeCase(c encCase) (file []byte, in []spec.AbsVal, err error) {
 	return buf.Bytes(), in, nil
 }
 
+// readEvolvedFirst reads a file of another generation of the type's schema into the
+// type. Its own outcome is C03's subject and is not judged here.
+func readEvolvedFirst(c encCase, typ reflect.Type) {
+	zero := reflect.New(typ).Elem().Interface()
+	s, err := avro.SchemaForType(zero)
+	if err != nil {
+		return
+	}
+	sb, err := s.Marshal()
+	if err != nil {
+		return
+	}
+	rs, err := ref.ParseSchema(sb)
+	if err != nil || rs.Kind != "record" || len(rs.Fields) < 2 {
+		return
+	}
+	n := len(rs.Fields)
+	rev := rs
+	rev.Fields = make([]ref.Field, n)
+	for i, f := range rs.Fields {
+		rev.Fields[n-1-i] = f
+	}
+	fs := ref.FileSpec{Schema: []byte(ref.Render(rev, nil)), Codec: "null"}
+	if c.Evolved == 2 && len(c.Records) > 0 {
+		// the first record, written by a first encoder, re-encoded under the other generation
+		one := c
+		one.Evolved, one.Records, one.FlushAfter, one.Repeat = 0, c.Records[:1], nil, 0
+		if file, _, err := encodeCase(one); err == nil {
+			if _, _, blocks, err := ref.ReadRecords(file); err == nil && len(blocks) == 1 && len(blocks[0]) == 1 && len(blocks[0][0].Fields) == n {
+				d := blocks[0][0]
+				rd := ref.Datum{K: "record", Fields: make([]ref.Datum, n)}
+				for i := range d.Fields {
+					rd.Fields[n-1-i] = d.Fields[i]
+				}
+				if body, err := ref.Encode(rev, rd, nil); err == nil {
+					fs.Blocks = []ref.Block{{Count: 1, Payload: body}}
+				}
+			}
+		}
+	}
+	file, _, err := ref.WriteFile(fs)
+	if err != nil {
+		return
+	}
+	_ = protect(func() error {
+		return avro.ReadFile(bytes.NewReader(file), zero, func(unsafe.Pointer, *avro.ResourceBank) error { return nil })
+	})
+}
+
 func typeOptsForTier() gen.TypeOpts {
 	if thorough() {
 		return gen.TypeOpts{MaxDepth: 5, MaxFields: 6, SkipFields: true}
@@ -217,6 +275,7 @@ func drawEncCase(t *rapid.T) encCase {
 	if rapid.IntRange(0, 4).Draw(t, "useCatalogue") == 0 {
 		name := rapid.SampledFrom(cat.Names(true)).Draw(t, "cat")
 		c.Type = cat.Get(name).Spec
+		c.Evolved = []int{0, 0, 0, 0, 1, 2}[gen.Uniform(t, "evolved", 6)]
 	} else {
 		c.Type = gen.StructType(t, typeOptsForTier(), 1)
 	}
@@ -301,6 +360,9 @@ func encLabels(c encCase, in []spec.AbsVal, blocks int) (nontrivial bool, labels
 	labels = append(labels, "codec_"+c.Compression)
 	if c.Type.Cat != "" {
 		labels = append(labels, "catalogue_type")
+	}
+	if c.Evolved != 0 {
+		labels = append(labels, "evolved_file_read_first")
 	}
 	for _, k := range []string{"slice", "map", "ptr", "time", "nullInt", "nullString", "int16", "float32", "bytes"} {
 		kk := k
